@@ -35,13 +35,20 @@ def A(nm, name, registered_=True):
                          reg=TupleOf(Ref(nm + "x"), Ref(nm + "y"), Ref(nm + "z")) if registered_ else Const(None)))
 
 
+def whole_alternative(res):
+    """Exactly one of the two alternatives of a flip is left, complete: {OD1, ND2} or {OD1FLIP, ND2FLIP}."""
+    orig = 'OD1' in res.map and 'ND2' in res.map and 'OD1FLIP' not in res.map and 'ND2FLIP' not in res.map
+    flip = 'OD1FLIP' in res.map and 'ND2FLIP' in res.map and 'OD1' not in res.map and 'ND2' not in res.map
+    return orig or flip
+
+
 def ROUTINES():
     return Obj("pdb2pqr.debump:Debump", cells=Obj("pdb2pqr.cells:Cells"))
 
 
 # ---------------------------------------------------------------- Flip.finalize (no hydrogen bond found: keep the original)
 contract(
-    "pdb2pqr.hydrogens.structures:Flip.finalize", ["C14", "C03"],
+    "pdb2pqr.hydrogens.structures:Flip.finalize", ["C14", "C03", "C04"],
     params={"self": Obj("pdb2pqr.hydrogens.structures:Flip", routines=ROUTINES(),
                         residue=Named("res", Obj("pdb2pqr.aa:ASN", fixed=Const(0),
                                                  atoms=Items(Ref("cb"), Ref("od"), Ref("nd"), Ref("odf"), Ref("ndf")),
@@ -56,6 +63,9 @@ contract(
         "len(res.atoms) == 3",
         # C03: no *FLIP placeholder name survives
         "not exists(res.atoms, lambda a: a.name.endswith('FLIP'))",
+        # C04: one alternative survives as a whole (see fix_flip) - with no partner found, the input's own
+        "whole_alternative(res) and 'OD1' in res.map",
+        "forall([cb, od, nd, odf, ndf], lambda a: a.x == old(a.x) and a.y == old(a.y) and a.z == old(a.z))",
     ],
     stubs=CELL_STUBS,
     name="Flip.finalize",
@@ -297,11 +307,16 @@ def _asn():
 
 for _tag, _which in (("keep_flip", "odf"), ("keep_original", "nd")):
     contract(
-        "pdb2pqr.hydrogens.structures:Flip.fix_flip", "C14",
+        "pdb2pqr.hydrogens.structures:Flip.fix_flip", ["C14", "C04"],
         params={"self": Obj("pdb2pqr.hydrogens.structures:Flip", routines=ROUTINES(), residue=_asn()),
                 "bondatom": Ref(_which)},
         requires=[],
-        ensures=["protocol_ok(res, [cb, od, nd, odf, ndf])", "len(res.atoms) == 3"],
+        ensures=["protocol_ok(res, [cb, od, nd, odf, ndf])", "len(res.atoms) == 3",
+                 # C04: ONE alternative survives as a whole - the amide oxygen and nitrogen are both the originals or both
+                 # the half-turn copies, never one of each; nothing is moved here
+                 "whole_alternative(res)",
+                 "forall([cb, od, nd, odf, ndf], lambda a: a.x == old(a.x) and a.y == old(a.y) and a.z == old(a.z))",
+                 "('OD1FLIP' in res.map) == (bondatom is odf)"],
         stubs=CELL_STUBS,
         name=f"Flip.fix_flip.{_tag}", native=False,
     )
@@ -555,40 +570,42 @@ def POOLATOM(nm):
                          hdonor=Const(0), hacceptor=Const(1), is_hydrogen=Const(0), reg=Const(None), reference=Const(None)))
 
 
-contract(
-    "pdb2pqr.hydrogens.structures:Flip.__init__", ["C04", "C14", "C03"],
-    params={"self": Obj("pdb2pqr.hydrogens.structures:Flip"),
-            "residue": Named("res", Obj("pdb2pqr.aa:ASN", name=Const("ASN"), is_c_term=Const(0), patches=Items(),
-                                        dihedrals=Items(Real, Named("chi2", Real)),
-                                        atoms=Items(Ref("f_ca"), Ref("f_cb"), Ref("f_cg"), Ref("f_od"), Ref("f_nd")),
-                                        map=DictOf(("CA", FA("f_ca", "CA", -1, ["f_cb"])), ("CB", FA("f_cb", "CB", 1, ["f_ca", "f_cg"])),
-                                                   ("CG", FA("f_cg", "CG", 2, ["f_cb", "f_od", "f_nd"])),
-                                                   ("OD1", FA("f_od", "OD1", 3, ["f_cg"])), ("ND2", FA("f_nd", "ND2", 3, ["f_cg"]))),
-                                        pool=Items(POOLATOM("p1"), POOLATOM("p2")),
-                                        reference=Obj("pdb2pqr.definitions:DefinitionResidue",
-                                                      dihedrals=Items(Const("N CA CB CG"), Const("CA CB CG OD1")),
-                                                      map=DictOf(("OD1", Obj("pdb2pqr.definitions:DefinitionAtom", name=Const("OD1"), bonds=Items(Const("CG")))),
-                                                                 ("ND2", Obj("pdb2pqr.definitions:DefinitionAtom", name=Const("ND2"), bonds=Items(Const("CG")))))))),
-            "optinstance": Obj("Opt", optangle=Const("CA CB CG OD1")),
-            "routines": ROUTINES()},
-    requires=[],
-    ensures=[
-        # one rotation, of this residue's flip torsion, by exactly half a turn
-        "len(calls_of('set_dihedral_angle')) == 1 and calls_of('set_dihedral_angle')[0].args['residue'] is res "
-        "and calls_of('set_dihedral_angle')[0].args['anglenum'] == 1 and calls_of('set_dihedral_angle')[0].args['angle'] == 180 + chi2",
-        # a copy of every atom beyond the pivot at the position it had before, and of no other atom
-        "'OD1FLIP' in res.map and 'ND2FLIP' in res.map and len(res.atoms) == 7",
-        "res.map['OD1FLIP'].x == old(f_od.x) and res.map['OD1FLIP'].y == old(f_od.y) and res.map['OD1FLIP'].z == old(f_od.z)",
-        "res.map['ND2FLIP'].x == old(f_nd.x) and res.map['ND2FLIP'].y == old(f_nd.y) and res.map['ND2FLIP'].z == old(f_nd.z)",
-        # the copies are in the cell list (C14), bonded to the common neighbour both ways
-        "registered(res.map['OD1FLIP']) and registered(res.map['ND2FLIP'])",
-        "exists(res.map['OD1FLIP'].bonds, lambda b: b is f_cg) and exists(f_cg.bonds, lambda b: b is res.map['OD1FLIP'])",
-    ],
-    stubs=dict(CELL_STUBS, **{"pdb2pqr.aa:Amino.create_atom": "stub_create_atom_flip"}),
-    trace={"pdb2pqr.debump:Debump.set_dihedral_angle": None, "pdb2pqr.aa:Amino.set_donors_acceptors": None,
-           "pdb2pqr.residue:Residue.set_donors_acceptors": None},
-    name="Flip.__init__", native=False,
-)
+# (also on a C-terminal residue: the side-chain amide atoms are no cap atoms, both get their copy there too)
+for _ct in (0, 1):
+    contract(
+        "pdb2pqr.hydrogens.structures:Flip.__init__", ["C04", "C14", "C03"],
+        params={"self": Obj("pdb2pqr.hydrogens.structures:Flip"),
+                "residue": Named("res", Obj("pdb2pqr.aa:ASN", name=Const("ASN"), is_c_term=Const(_ct), patches=Items(),
+                                            dihedrals=Items(Real, Named("chi2", Real)),
+                                            atoms=Items(Ref("f_ca"), Ref("f_cb"), Ref("f_cg"), Ref("f_od"), Ref("f_nd")),
+                                            map=DictOf(("CA", FA("f_ca", "CA", -1, ["f_cb"])), ("CB", FA("f_cb", "CB", 1, ["f_ca", "f_cg"])),
+                                                       ("CG", FA("f_cg", "CG", 2, ["f_cb", "f_od", "f_nd"])),
+                                                       ("OD1", FA("f_od", "OD1", 3, ["f_cg"])), ("ND2", FA("f_nd", "ND2", 3, ["f_cg"]))),
+                                            pool=Items(POOLATOM("p1"), POOLATOM("p2")),
+                                            reference=Obj("pdb2pqr.definitions:DefinitionResidue",
+                                                          dihedrals=Items(Const("N CA CB CG"), Const("CA CB CG OD1")),
+                                                          map=DictOf(("OD1", Obj("pdb2pqr.definitions:DefinitionAtom", name=Const("OD1"), bonds=Items(Const("CG")))),
+                                                                     ("ND2", Obj("pdb2pqr.definitions:DefinitionAtom", name=Const("ND2"), bonds=Items(Const("CG")))))))),
+                "optinstance": Obj("Opt", optangle=Const("CA CB CG OD1")),
+                "routines": ROUTINES()},
+        requires=[],
+        ensures=[
+            # one rotation, of this residue's flip torsion, by exactly half a turn
+            "len(calls_of('set_dihedral_angle')) == 1 and calls_of('set_dihedral_angle')[0].args['residue'] is res "
+            "and calls_of('set_dihedral_angle')[0].args['anglenum'] == 1 and calls_of('set_dihedral_angle')[0].args['angle'] == 180 + chi2",
+            # a copy of every atom beyond the pivot at the position it had before, and of no other atom
+            "'OD1FLIP' in res.map and 'ND2FLIP' in res.map and len(res.atoms) == 7",
+            "implies('OD1FLIP' in res.map, res.map['OD1FLIP'].x == old(f_od.x) and res.map['OD1FLIP'].y == old(f_od.y) and res.map['OD1FLIP'].z == old(f_od.z))",
+            "implies('ND2FLIP' in res.map, res.map['ND2FLIP'].x == old(f_nd.x) and res.map['ND2FLIP'].y == old(f_nd.y) and res.map['ND2FLIP'].z == old(f_nd.z))",
+            # the copies are in the cell list (C14), bonded to the common neighbour both ways
+            "implies('OD1FLIP' in res.map and 'ND2FLIP' in res.map, registered(res.map['OD1FLIP']) and registered(res.map['ND2FLIP']))",
+            "implies('OD1FLIP' in res.map, exists(res.map['OD1FLIP'].bonds, lambda b: b is f_cg) and exists(f_cg.bonds, lambda b: b is res.map['OD1FLIP']))",
+        ],
+        stubs=dict(CELL_STUBS, **{"pdb2pqr.aa:Amino.create_atom": "stub_create_atom_flip"}),
+        trace={"pdb2pqr.debump:Debump.set_dihedral_angle": None, "pdb2pqr.aa:Amino.set_donors_acceptors": None,
+               "pdb2pqr.residue:Residue.set_donors_acceptors": None},
+        name="Flip.__init__" + (".cterm" if _ct else ""), native=False,
+    )
 
 
 # ---------------------------------------------------------------- Alcoholic.__init__: the hydroxyl hydrogen is taken out properly
